@@ -144,6 +144,8 @@ def consumers(rng, read_error=None):
     if rng.chance(0.4):
         r['block_size'] = rng.choice([1, 3, 16, 97, 100000])
 
+    r['stream'], r['buf'] = gen.gen_stream(rng)
+
     cs = [r, {'id': 'D1', 'kind': 'dom_load', 'file': 'f1',
               'via': 'from_bytes'},
           {'id': 'D2', 'kind': 'dom_load', 'file': 'f1',
